@@ -382,10 +382,29 @@ class FaultyServer(asyncssh.SFTPServer):
     values, wrong types, wrong shapes) to the protocol layer."""
 
     root = None
+    close_mode = 'ok'       # what the application's next close() hook does
+    opened = []             # every file object handed out (kept alive)
+    closes = {}             # id(file object) -> number of close() calls
 
     def __init__(self, chan):
         super().__init__(chan, chroot=FaultyServer.root)
         self._enc = {}
+
+    @classmethod
+    def reset_hooks(cls):
+        cls.close_mode = 'ok'
+        cls.opened = []
+        cls.closes = {}
+
+    def close(self, file_obj):
+        cls = FaultyServer
+        cls.closes[id(file_obj)] = cls.closes.get(id(file_obj), 0) + 1
+        mode, cls.close_mode = cls.close_mode, 'ok'
+        super().close(file_obj)
+        if mode == 'oserr':
+            raise OSError(errno.EIO, 'delayed write failed at close')
+        if mode == 'sftperr':
+            raise asyncssh.SFTPError(15, 'quota exceeded at close')
 
     # ---- results by fault class ----
     @staticmethod
@@ -418,19 +437,20 @@ class FaultyServer(asyncssh.SFTPServer):
 
     def open(self, path, pflags, attrs):
         f = fault_of(path)
+        obj = super().open(b'/f' if f is not None else path, pflags, attrs)
         if f is not None:
-            obj = super().open(b'/f', pflags, attrs)
             self._enc[id(obj)] = f
-            return obj
-        return super().open(path, pflags, attrs)
+        FaultyServer.opened.append(obj)
+        return obj
 
     def open56(self, path, desired_access, flags, attrs):
         f = fault_of(path)
+        obj = super().open56(b'/f' if f is not None else path,
+                             desired_access, flags, attrs)
         if f is not None:
-            obj = super().open56(b'/f', desired_access, flags, attrs)
             self._enc[id(obj)] = f
-            return obj
-        return super().open56(path, desired_access, flags, attrs)
+        FaultyServer.opened.append(obj)
+        return obj
 
     def fstat(self, file_obj):
         f = self._enc.get(id(file_obj))
@@ -1020,6 +1040,178 @@ def unenc_case(sw, sess, v, t, f, legal):
         sess.close()
         sess = sw.session(v)
     return sess, r
+
+
+# ---- handle life cycle (specs/SftpProto/SftpHandles.tla) ----
+SPECIAL_HANDLES = {-1: b'\x00\x00\xff\xfe', -2: b'', -3: b'L' * 300}
+
+
+def handle_request(r, h, v):
+    """(packet type, body) of handle-taking request r naming handle h"""
+    fl = u32(0xfd) if v >= 4 else b''
+    if r == 'read':
+        return 5, sstr(h) + u64(0) + u32(4)
+    if r == 'write':
+        return 6, sstr(h) + u64(0) + sstr(b'x')
+    if r == 'fstat':
+        return 8, sstr(h) + fl
+    if r == 'fsetstat':
+        return 10, sstr(h) + empty_attrs(v)
+    if r == 'readdir':
+        return 12, sstr(h)
+    if r == 'close':
+        return 4, sstr(h)
+    if r == 'block':
+        return 22, sstr(h) + u64(0) + u64(1) + u32(0x40)
+    if r == 'unblock':
+        return 23, sstr(h) + u64(0) + u64(1)
+    if r == 'x_ranges':
+        return EXTENDED, sstr(EXT_NAMES[r]) + sstr(h) + u64(0) + u64(10)
+    return EXTENDED, sstr(EXT_NAMES[r]) + sstr(h)
+
+
+def split_handle_behaviour(steps):
+    """[(lbl, state)] -> (version, [(lbl, reply)]) up to the end of session"""
+    v = steps[0][1]['v']
+    out = []
+    for lbl, st in steps[1:]:
+        if lbl[0] == 'end' or (out and st['n'] == steps[0][1]['n']):
+            break
+        out.append((tuple(lbl), st['reply']))
+    return v, out
+
+
+def handle_replay(sw, v, script):
+    """One behaviour of SftpHandles against the real server.  script:
+    [(lbl, model reply)].  Returns dict(l1, diverged, trace)."""
+    FaultyServer.reset_hooks()
+    sess = RawSession(sw, v)
+    res = {'v': v, 'script': [list(l) for l, _ in script], 'l1': [],
+           'diverged': None, 'trace': []}
+    issued = []                 # handle strings in order of issue
+    kind, closed, eof = {}, set(), set()
+
+    def hbytes(t):
+        return SPECIAL_HANDLES[t] if t < 0 else issued[t - 1]
+
+    try:
+        for lbl, want in script:
+            target = None
+            if lbl[0] == 'open':
+                if lbl[1] == 'dir':
+                    ptype, body = 11, sstr(b'd')
+                else:
+                    ptype, body = 3, open_body(
+                        v, b'f' if lbl[2] else b'nonexistent', write=True)
+                what = f'open {lbl[1]} {"ok" if lbl[2] else "missing"}'
+            elif lbl[0] == 'close':
+                target = lbl[1]
+                if target > len(issued):
+                    break
+                ptype, body = handle_request('close', hbytes(target), v)
+                FaultyServer.close_mode = lbl[2]
+                what = f'close #{target} hook={lbl[2]}'
+            else:
+                target = lbl[2]
+                if target > len(issued):
+                    break
+                ptype, body = handle_request(lbl[1], hbytes(target), v)
+                what = f'{lbl[1]} #{target}'
+            rid = sess.request(ptype, body)
+            pid = sess.request(16, sstr(b'.') + (b'\x01' if v >= 6 else b''))
+            sess.loop.run_until_idle()
+            FaultyServer.close_mode = 'ok'
+            mine, probe = [], []
+            for pt, b in sess.packets():
+                i = struct.unpack('>I', b[:4])[0] if len(b) >= 4 else None
+                if i == rid:
+                    mine.append((pt, b[4:]))
+                elif i == pid:
+                    probe.append((pt, b[4:]))
+            if len(mine) != 1:
+                res['l1'].append(('ExactlyOneReply', f'{what}: {len(mine)} '
+                                  f'replies'))
+                break
+            if len(probe) != 1:
+                res['l1'].append(('ErrorNotFatal', f'{what}: the session did '
+                                  f'not answer the next request'))
+                break
+            pt, b = mine[0]
+            cls, code = classify(pt, b)
+            msg = b''
+            if pt == STATUS:
+                try:
+                    c2 = Cur(b)
+                    c2.u32()
+                    msg = c2.str()
+                except (struct.error, IndexError):
+                    pass
+            bad = check_body(pt, b, v, 'x_statvfs' if 'statvfs' in what
+                             else 'x_ranges' if 'ranges' in what else None)
+            if bad:
+                res['l1'].append(('WellFormedReply', f'{what}: {bad}'))
+            if b'Uncaught exception' in msg:
+                res['l1'].append(('HandleLifecycle', f'{what}: the server '
+                                  f'answered with an internal error text: '
+                                  f'{msg[:80]!r}'))
+            invalid = (cls == 'status_err' and
+                       (code == 9 if v >= 4 else
+                        code == 4 and b'Invalid file handle' in msg))
+            # what the harness itself knows about the named handle
+            must_refuse = target is not None and (
+                target < 0 or target in closed or
+                (lbl[0] == 'use' and
+                 (kind.get(target) == 'dir') != (lbl[1] == 'readdir')))
+            if must_refuse and not invalid:
+                why = 'was never issued' if target < 0 else \
+                    'was closed before' if target in closed else \
+                    'is of the wrong kind'
+                res['l1'].append(('HandleLifecycle', f'{what}: the handle '
+                                  f'{why}, but the reply is {cls} code='
+                                  f'{code} {msg[:60]!r} instead of the '
+                                  f'v{v} invalid-handle status'))
+            got = 'invalid' if invalid else cls
+            if lbl[0] == 'open' and cls == 'handle':
+                h = Cur(b).str()
+                if h in issued:
+                    res['l1'].append(('HandleLifecycle', f'{what}: handle '
+                                      f'{h.hex()} was issued before'))
+                issued.append(h)
+                kind[len(issued)] = lbl[1]
+            if lbl[0] == 'close' and target is not None and target > 0:
+                closed.add(target)
+            if lbl[0] == 'use' and lbl[1] == 'readdir' and target > 0 and \
+                    target not in closed and kind.get(target) == 'dir':
+                if target in eof and not (cls == 'status_err' and code == 1):
+                    res['l1'].append(('HandleLifecycle', f'{what}: the '
+                                      f'listing had ended, now the reply is '
+                                      f'{cls} code={code}'))
+                if cls == 'status_err' and code == 1:
+                    eof.add(target)
+                    got = 'eof'
+                elif cls == 'name':
+                    eof.add(target)     # the whole directory fits one reply
+            res['trace'].append((what, got, code))
+            if not res['l1'] and res['diverged'] is None:
+                ok = got == want or (want == 'served' and got != 'invalid'
+                                     and not got.startswith('type'))
+                if not ok:
+                    res['diverged'] = (f'{what}: server replied {got} '
+                                       f'(code {code}), model {want}')
+    finally:
+        sess.close()
+        sess.loop.run_until_idle()
+    over = [n for n in FaultyServer.closes.values() if n > 1]
+    if over:
+        res['l1'].append(('HooksOnce', f'the application\'s close() hook ran '
+                          f'{max(over)} times for one open file'))
+    elif not res['l1'] and res['diverged'] is None:
+        never = [o for o in FaultyServer.opened
+                 if FaultyServer.closes.get(id(o), 0) == 0]
+        if never:
+            res['diverged'] = (f'{len(never)} opened files were never '
+                               f'closed by the end of the session')
+    return res
 
 
 def errno_case(sess, v, name=None, code=None):
